@@ -62,11 +62,18 @@ def gen_history(r, quick, ids):
                 else:
                     ops.append(X.op_store_set(ids, frm, "k1", 1))
         blocks.append(ops)
+        if r.random() < 0.2:
+            blocks.append(RESTART)      # the next block finds every account on disk only
     return dict(cfg=dict(admins=admins, gas=price, audit=False, bal=str(genesis)), pre=pre, blocks=blocks)
 
 
+RESTART = "RESTART"
+
+
 def to_history(g):
-    return {"cfg": g["cfg"], "steps": g["pre"] + [X.blk([])] + [X.blk([o["tx"] for o in ops]) for ops in g["blocks"]], "timeout_ms": 60000}
+    """a block entry "RESTART" restarts the node (ledger and executor reopened from disk: empty account cache)"""
+    return {"cfg": g["cfg"], "steps": g["pre"] + [X.blk([])] + [({"op": "restart"} if ops == RESTART else X.blk([o["tx"] for o in ops])) for ops in g["blocks"]],
+            "timeout_ms": 60000}
 
 
 def corpus_histories(ids):
@@ -84,6 +91,12 @@ def corpus_histories(ids):
         # share is credited after its account was emptied; the loss is the rounding loss only (one tx per block)
         mk(4, 50000, [f("a:1", 788500003)], [[X.op_transfer("a:1", "u:1", "5")], [X.op_transfer("a:1", "u:1", "1")], [X.op_store_set(ids, "a:1", "k1", 1)]]),
         mk(3, 50000, [], [[X.op_transfer("a:2", "u:1", "5")], [X.op_transfer("a:2", "a:0", "1")], [X.op_bad("a:2", 0)]]),
+        # RESTART: the accounts of the next block are on disk only (empty account cache); transfers from old accounts to
+        # old, cached and never-seen ones, fees to the admins - the books are compared with the COMMITTED balances
+        mk(4, 1, [f("u:1", 10**9), f("u:2", 5 * 10**5)],
+           [[X.op_transfer("u:1", "u:2", "1000")], RESTART, [X.op_transfer("u:1", "u:50", "7000")], [X.op_transfer("u:2", "u:1", "3")], RESTART,
+            [X.op_transfer("u:1", "u:2", "5"), X.op_transfer("u:2", "u:51", "1"), X.op_transfer("a:1", "u:1", "9")], RESTART, [X.op_store_set(ids, "u:2", "k1", 1)]]),
+        mk(3, 0, [f("u:1", 1000)], [[X.op_transfer("u:1", "u:2", "10")], RESTART, [X.op_transfer("u:1", "u:2", "10"), X.op_transfer("u:2", "u:1", "15")]]),
         # "young" accounts: created by an earlier transaction of the SAME block, then on either side of a transfer that is
         # undone (the sender covers the amount but not the fee afterwards): receiver keeps nothing of the undone credit,
         # a young sender gets its debit back
@@ -280,7 +293,7 @@ def maybe_shrink(ctx, rep, v, flagsets, open_map, ids, exe):
         return None
     g1, bi = X.shrink_blocks(g0, rep["block"] - npre, still_bad)
     if g1 is not g0:
-        rep = dict(rep, g=g1, history=to_history(g1), block=bi + npre, shrunk_from=dict(blocks=len(g0["blocks"]), txs=sum(len(b) for b in g0["blocks"])))
+        rep = dict(rep, g=g1, history=to_history(g1), block=bi + npre, shrunk_from=dict(blocks=len(g0["blocks"]), txs=sum(len(b) for b in g0["blocks"] if b != RESTART)))
     return rep
 
 
@@ -317,7 +330,8 @@ def run(ctx):
             evaluate(ctx, list(zip(items, outs)), flagsets, open_map, ids, exe)
             ctx.extra["fees_distribution"] = dict(histories=len(items), admins=sorted(set(g["cfg"]["admins"] for g in items)),
                                                   prices=sorted(set(g["cfg"]["gas"] for g in items)),
-                                                  tags=sorted(set(o["tag"] for g in items for b in g["blocks"] for o in b)))
+                                                  tags=sorted(set(o["tag"] for g in items for b in g["blocks"] if b != RESTART for o in b)),
+                                                  restarts=sum(1 for g in items for b in g["blocks"] if b == RESTART))
     return ctx.finish(rule="blocks of native transactions (transfers with amounts from {0,1,balance,balance+1,balance-fee,2^256,negative,non-numeric,empty,"
                            "signed,padded}, to other/self/contract/admin; succeeding and failing contract calls; undecodable payloads; the admin-registration "
                            "vote sequence) over |admins| in {1,2,3,4,7,9} x gas price in {0,1,3,7,1000003} x balances at every fee threshold; "
